@@ -20,7 +20,7 @@ def worker(kp, job):
     rng = random.Random(seed * 141650939 + idx)
     # every fifth document leaves its splits open across barlines (cuts then fall inside a split region)
     g = docs.gen_doc(rng, kern_only=True, core=(idx % 5 != 4), max_spines=2, measures=rng.randint(2, 6), comments=(idx % 3 == 0), blanks=0,
-                     opening_barline=(idx % 4 != 0))
+                     opening_barline=(idx % 4 != 0), empty_measures=(0.35 if idx % 3 == 1 else 0.0))
     g.nl = '\n'
     g.final_nl = False
     lines = g.text.split('\n')
@@ -79,6 +79,18 @@ def worker(kp, job):
                         if a2 != b1 + 1 or b2 < a2 - 1:
                             viol.append(('pairs', f'pairs {idx_pairs} are not consecutive', {'fragments': ftexts, 'separator': sep}))
                             break
+                    # pair i addresses exactly the measures that START in fragment i (from the generator's own measure starts)
+                    if not (idx % 5 == 4):
+                        mstarts = spec.measure_starts(g)
+                        want_pairs, done_, row0 = [], 0, 0
+                        for f_ in frags:
+                            nr = len([l for l in f_ if l and not l.startswith('!!')])
+                            cnt = sum(1 for r_ in mstarts if row0 <= r_ < row0 + nr)
+                            want_pairs.append((0 if not want_pairs else done_ + 1, done_ + cnt))
+                            done_ += cnt
+                            row0 += nr
+                        if [tuple(p_) for p_ in idx_pairs] != want_pairs:
+                            viol.append(('pairs', f'pairs {idx_pairs}, the measures that start in each fragment give {want_pairs}', {'fragments': ftexts, 'separator': sep}))
                     # exporting pair i reproduces the data lines of fragment i
                     for i, ((lo, hi), ft) in enumerate(zip(idx_pairs, ftexts)):
                         if hi < lo:
